@@ -206,7 +206,9 @@ def run_script(R, rec, data, script, use_guard=True):
     # (class-level caches, module globals) would let it disturb the reader under observation
     decoy = R(bytes(reversed(data)) + b"\xff\x01\xff")
     decoy_ops = [("get_byte",), ("get_short",), ("next_chunk",), ("get_string",), ("get_fixed_string", 2, True)]
-    real, model = R(data), RefReader(data)
+    form = (len(data) + len(script)) % 4  # the constructor accepts any bytes-like object
+    arg = data if form < 2 else bytearray(data) if form == 2 else memoryview(bytes(data))
+    real, model = R(arg), RefReader(data)
     g = guardmod.install(real, data) if use_guard else None
     ls = LockstepReader(real, model, guard=g)
     root = ls
